@@ -293,6 +293,9 @@ def known_signature(k, engine, case, model, spec, impl):
     if engine == "e2e":
         # C13-vrib-query-todo (class KV): every token that departs from the spec is the one the model gives - v:STALL at the
         # query of a generated vRIB about a prefix the physical RIB holds a record of, `x` for the ops the engine then skips
+        # C13-bgp-reload-end-unheard (class KU): a RIB answer in which routes of a BGP session that the reload ended still read active
+        if k.get("class") == "KU":
+            return V.explained_by(model, spec, impl, {"KU"})
         return k.get("class") == "KV" and V.explained_by(model, spec, impl, {"KV"})
     if k.get("id") != "C13-same-name-panic" or engine != "c13":
         return False
